@@ -82,7 +82,7 @@ func (g *vfGen) genC17() {
 			own = own[:24]
 		}
 		for _, lit := range own {
-			for _, gap := range []int{0, g.rng.Intn(40), 600} {
+			for _, gap := range []int{0, g.intn(40), 600} {
 				data := append(append(append([]byte{}, h...), make([]byte, gap)...), lit...)
 				data = append(data, 'x', 'y')
 				g.emit(vfOp("mono", data, len(h), 0))
@@ -94,37 +94,37 @@ func (g *vfGen) genC17() {
 	for _, h := range heads {
 		for r := 0; r < reps; r++ {
 			var suf []byte
-			switch g.rng.Intn(5) {
+			switch g.intn(5) {
 			case 0:
-				suf = g.bytes(g.rng.Intn(64))
+				suf = g.bytes(g.intn(64))
 			case 1:
-				lit := pool[g.rng.Intn(len(pool))]
-				k := g.rng.Intn(len(lit) + 1)
-				suf = append(g.bytes(g.rng.Intn(8)), lit[:k]...)
+				lit := pool[g.intn(len(pool))]
+				k := g.intn(len(lit) + 1)
+				suf = append(g.bytes(g.intn(8)), lit[:k]...)
 			case 2:
-				lit := pool[g.rng.Intn(len(pool))]
-				suf = append(append(g.bytes(g.rng.Intn(600)), lit...), g.bytes(g.rng.Intn(40))...)
+				lit := pool[g.intn(len(pool))]
+				suf = append(append(g.bytes(g.intn(600)), lit...), g.bytes(g.intn(40))...)
 			case 3:
-				suf = make([]byte, g.rng.Intn(700))
+				suf = make([]byte, g.intn(700))
 			default:
-				suf = g.textBytes(g.rng.Intn(200))
+				suf = g.textBytes(g.intn(200))
 			}
 			data := append(append([]byte{}, h...), suf...)
 			// L1: somewhere inside or at the end of the original header; L2 larger, or unlimited
 			l1 := len(h)
-			if len(h) > 1 && g.rng.Intn(3) == 0 {
-				l1 = 1 + g.rng.Intn(len(h))
+			if len(h) > 1 && g.intn(3) == 0 {
+				l1 = 1 + g.intn(len(h))
 			}
 			var l2 int
-			switch g.rng.Intn(4) {
+			switch g.intn(4) {
 			case 0:
 				l2 = 0
 			case 1:
 				l2 = l1 + 1
 			case 2:
-				l2 = l1 + 1 + g.rng.Intn(len(suf)+2)
+				l2 = l1 + 1 + g.intn(len(suf)+2)
 			default:
-				l2 = len(data) + g.rng.Intn(3)
+				l2 = len(data) + g.intn(3)
 			}
 			if l1 == 0 {
 				continue
